@@ -483,10 +483,10 @@ for _m in ("tc", "tm", "s17", "s1", "cfdp", "cfdpdir"):
 class C04(Prop):
     id = "C04"
     title = "A corrupted CRC-protected packet is never accepted as valid"
-    lean_modules = ["SpVerif.Props.C04"]
+    lean_modules = ["SpVerif.Props.C04", "SpVerif.Props.C04Pdu"]
     trusted_base = [
         "crcmod (CRC16_CCITT_FUNC, PredefinedCrc, mkPredefinedCrcFun) tied to the Lean bit-serial CRC by the c04_crc op on structured and random data up to 70 000 octets in this run",
-        "CFDP PDU kinds: the model side of the fault enumeration is the common decoder front (PduHeader.unpack + verify_length_and_checksum, with FileDirectivePduBase.unpack in between for directives); the PDU bodies are decoded by the real classes only - which is all the 'never returns an object' clause needs, since the front fails first",
+        "CFDP PDU kinds: the model side of the fault enumeration is the common decoder front (PduHeader.unpack + verify_length_and_checksum, with FileDirectivePduBase.unpack in between for directives); that each of the eight PDU decoder models and the factory model fail whenever that front fails is a theorem (Props/C04Pdu.lean: C04_directive_decoders_run_front, C04_filedata_decoder_runs_front, C04_factory_decoders_run_front), the faithfulness of those per-PDU models to the real classes is what C06 / C07 / C12 check differentially",
     ]
     assumptions = [
         "length-determining octets: PUS octets 4-5; CFDP octets 0-3 (CRC flag, data-field length, width nibbles) - DESIGN.md section 8",
